@@ -1,4 +1,4 @@
-import TrustVerif.Lemmas.C19
+import TrustVerif.Lemmas.C19Fs
 
 /-!
 # C19 — web IDE file API stays inside the project and never loses a concurrent edit
@@ -17,43 +17,11 @@ theorem c19_normal_form (p : List Char) (ps : List Name) (h : normalizeParts p =
     (∀ c ∈ ps, c ≠ [] ∧ '/' ∉ c ∧ isHiddenName c = false ∧ c ≠ ['.'] ∧ c ≠ ['.', '.']) ∧
     components (joinSlash ps) = ps.map Component.normal ∧
     ∀ root : Path, root <+: root ++ ps := by
-  unfold normalizeParts at h
-  simp only at h
-  split at h
-  · simp at h
-  · split at h
-    · simp at h
-    · split at h
-      · simp at h
-      · simp at h
-      · rename_i ps' hne hloop
-        simp only [Except.ok.injEq] at h
-        subst h
-        obtain ⟨hps, hall⟩ := normLoop_ok _ _ hloop
-        have hparts : ∀ c ∈ ps', c ≠ [] ∧ '/' ∉ c ∧ isHiddenName c = false := by
-          intro c hc
-          rw [hps] at hc
-          simp only [List.mem_filterMap] at hc
-          obtain ⟨comp, hm, hcomp⟩ := hc
-          cases comp with
-          | normal s =>
-            simp only [Option.some.injEq] at hcomp
-            subst hcomp
-            obtain ⟨h1, h2, _, _⟩ := components_normal _ _ hm
-            rcases hall _ hm with h | ⟨s', hs', hh⟩
-            · cases h
-            · cases hs'
-              exact ⟨h1, h2, hh⟩
-          | rootDir => simp at hcomp
-          | curDir => simp at hcomp
-          | parentDir => simp at hcomp
-        have hne' : ps' ≠ [] := by
-          intro e
-          exact hne e
-        refine ⟨hne', ?_, components_joinSlash ps' hne' hparts, fun root => List.prefix_append root ps'⟩
-        intro c hc
-        obtain ⟨h1, h2, h3⟩ := hparts c hc
-        exact ⟨h1, h2, h3, (not_hidden_ne_dots c h3).1, (not_hidden_ne_dots c h3).2⟩
+  obtain ⟨hne, hparts⟩ := normalizeParts_ok p ps h
+  refine ⟨hne, ?_, components_joinSlash ps hne hparts, fun root => List.prefix_append root ps⟩
+  intro c hc
+  obtain ⟨h1, h2, h3⟩ := hparts c hc
+  exact ⟨h1, h2, h3, (not_hidden_ne_dots c h3).1, (not_hidden_ne_dots c h3).2⟩
 
 /-- Non-vacuity of `c19_normal_form`, and the rejections of the property statement's list
 (`..`, absolute, hidden, empty; `./`, `//`, surrounding white space and backslashes are
